@@ -13,6 +13,23 @@ CLAIMED = {
         design="DESIGN.md §3 C11"),
 }
 
+CLAIMED["C07"] = dict(
+    text="Deductive proof over a symbolic path string: both router entry points (real AST) equal one spec predicate built "
+         "from the statement, with os.path.splitext and mimetypes.guess_type uninterpreted (so: for every MIME database); "
+         "alias=base, per-extension routing and documentation tables as lemmas / ground table invariants.",
+    note="Assumed: splitext axioms A1-A3 (+A5 instances), guess_type total/deterministic, importlib succeeds for registry modules; "
+         "str.lower uninterpreted; pyvc engine, z3 sequence solver, cvc5.",
+    technique="contract-based deductive verification: AST->VC generation over the real source, string VCs in z3/cvc5",
+    design="DESIGN.md §3 C07")
+CLAIMED["C20"] = dict(
+    text="Deductive proof that every table, GF(2^8) helper, round function, the key expansion for Nk=4,6,8 and block "
+         "encrypt/decrypt of the real module equal an independently written FIPS-197 specification over 8-bit vectors, "
+         "for all keys and blocks; inverse lemmas; known-answer vectors guard the spec.",
+    note="Assumed: spec transcription (checked on FIPS-197 App. A/C and SP 800-38A vectors each run); bytes are immutable ints in [0,256); "
+         "secrets.token_bytes freshness not expressible; pyvc engine, z3.",
+    technique="contract-based deductive verification: AST->VC generation over the real source, bit-vector VCs in z3",
+    design="DESIGN.md §3 C20")
+
 PENDING = {}
 
 ALL = [f"C{i:02d}" for i in range(1, 21)]
